@@ -18,7 +18,7 @@ def BOUND(tier):
 
 
 def RULE(tier):
-    return ("flat forest of n leaves (n<=4) explored with <= %d deviations (one less for n=4) (config tock/start/limit, leaf kind, per-step yielded "
+    return ("flat forest of n leaves (n<=4) explored with <= %d deviations (thorough tier: one less for n=4) (config tock/start/limit, leaf kind, per-step yielded "
             "tock in {0,None,T/2,T,2T,0.1}, return True/False/None); every execution is re-run, with the recorded per-leaf "
             "decisions, under every regrouping of consecutive leaves into tock-0 DoDoers; the combined leaf event trace with "
             "tymes, done flags, doist.done, final tyme must be identical. evaluations counts flat runs; regrouped_runs counts "
@@ -35,8 +35,8 @@ def jobs(tier):
 
 
 def job_bound(job, tier):
-    """4 leaves (335 regroupings per execution) get one deviation less"""
-    return BOUND(tier)
+    """thorough tier: 4 leaves (335 regroupings per execution) get one deviation less"""
+    return BOUND(tier) - (1 if tier != "quick" and len(job[1]) == 4 else 0)
 
 
 _REGROUP = {}
